@@ -18,7 +18,7 @@ MODEL_FILES = ['MaltModel/Conv/Anf.lean', 'MaltModel/Conv/AnfSpec.lean', 'MaltMo
               ['MaltModel/Proofs/' + os.path.basename(p) for p in sorted(glob.glob(os.path.join(common.LEAN, 'MaltModel', 'Proofs', 'C18*.lean')))]
 
 # priority in which a failing case is attributed when the program has several hazard classes
-CLASS_ORDER = ['user_name_has_temporary_form', 'walrus_target_context_clobbered_by_hoisted_copy', 'with_target_hoisted_as_read', 'pending_statements_dropped',
+CLASS_ORDER = ['matmult_operator_node_hoisted_as_expression', 'user_name_has_temporary_form', 'walrus_target_context_clobbered_by_hoisted_copy', 'with_target_hoisted_as_read', 'pending_statements_dropped',
                'name_read_reordered_after_rebinding_operand', 'store_target_evaluated_before_value',
                'later_target_operand_hoisted_before_earlier_store', 'with_item_evaluated_before_earlier_enter',
                'dict_value_reordered_after_later_key', 'operand_effect_reordered_after_later_operand']
@@ -111,6 +111,9 @@ def nontrivial_lazy(fn):
             out.append('IfExp')
         elif isinstance(n, ast.Lambda) and _nontrivial(n.body):
             out.append('Lambda')
+        elif isinstance(n, ast.JoinedStr) and any(isinstance(v, ast.FormattedValue) and _nontrivial(v.value)
+                                                  for m in ast.walk(n) for v in [m]):
+            out.append('JoinedStr')     # "Nontrivial JoinedStr / FormattedValue nodes not supported yet"
         elif isinstance(n, ast.While) and _nontrivial(n.test):
             out.append('While')
         elif isinstance(n, ast.Assert) and (_nontrivial(n.test) or (n.msg is not None and _nontrivial(n.msg))):
@@ -127,8 +130,8 @@ def gen_cases(run):
         st = 'mutable' if key.startswith('mutable') else 'fixed'
         cases.append({'key': 'fixed:' + key, 'src': src, 'cfg': None, 'stream': st})
         cases.append({'key': 'fixed:' + key + ':leave', 'src': src, 'cfg': [['any', False]], 'stream': st})
-        if key.startswith(('lazy-nested', 'annotation')):
-            for k, cfg in enumerate(L.INNER_ONLY):
+        if key.startswith(('lazy-nested', 'annotation', 'fstring')):
+            for k, cfg in enumerate(L.INNER_ONLY + (G.FSTRING_CFGS if key.startswith('fstring') else [])):
                 cases.append({'key': 'fixed:%s:inner%d' % (key, k), 'src': src, 'cfg': cfg, 'stream': st})
     n_main = 420 if quick else 4200
     n_lazy = 60 if quick else 600
@@ -140,7 +143,7 @@ def gen_cases(run):
         g = G.Gen(rng, size=rng.randint(2, 9), depth=rng.randint(1, 3),
                   lazy=0.3 if stream == 'lazy' else 0.0, temp_names=(stream == 'temp'), frag=(stream == 'frag'),
                   shallow_bias=rng.choice([0.2, 0.6, 0.95]), walrus=rng.choice([0.0, 0.06, 0.15]),
-                  raising=rng.choice([0.0, 0.05, 0.15]))
+                  raising=rng.choice([0.0, 0.05, 0.15]), fstr=rng.choice([0.0, 0.0, 0.12]) if stream in ('main', 'lazy') else 0.0)
         src = g.program()
         try:
             ast.parse(src)
@@ -152,6 +155,19 @@ def gen_cases(run):
         cases.append({'key': '%s%d' % (stream, i), 'src': src, 'cfg': None, 'stream': stream})
         for _ in range(1 if quick else 2):
             cases.append({'key': '%s%d:rc' % (stream, i), 'src': src, 'cfg': L.random_config(rng), 'stream': stream})
+    # f-strings (fields format an object with observable formatting, later fields mutate it) in statements of every kind
+    for i in range(70 if quick else 700):
+        src, fs = G.fstring_program(rng)
+        for f in fs:
+            feats[f] += 1
+        for cfg in [None, rng.choice(G.FSTRING_CFGS), rng.choice(G.FSTRING_CFGS + L.INNER_ONLY + [L.random_config(rng)])]:
+            cases.append({'key': 'fstr%d' % i, 'src': src, 'cfg': cfg, 'stream': 'fstring'})
+    # one program for every node kind of the grammar the random generators never produce
+    for key, src in G.GRAMMAR:
+        feats['grammar-' + key] += 1
+        cfgs = [None, [['any', False]]] + L.INNER_ONLY + [L.random_config(rng) for _ in range(2 if quick else 10)]
+        for k, cfg in enumerate(cfgs):
+            cases.append({'key': 'grammar:%s:%d' % (key, k), 'src': src, 'cfg': cfg, 'stream': 'grammar'})
     # lazy constructs with nested calls in the lazy operand, under configurations naming inner positions only
     for i in range(50 if quick else 500):
         src, fs = G.lazy_nested_program(rng)
@@ -220,7 +236,69 @@ def load_corpus():
 
 def _mutable(case):
     """programs using the mutable part of the prelude (outside the pure-load assumption of Py.SemAnf)"""
-    return case.get('stream') == 'mutable' or bool(re.search(r'\b(bump|B|L|G)\b', case['src']))
+    return case.get('stream') == 'mutable' or bool(re.search(r'\b(bump|B|L|G|F|Fm)\b', case['src']))
+
+
+_SEM_BINOPS = (ast.Add, ast.Sub, ast.Mult)
+_SEM_CMPOPS = (ast.Lt, ast.LtE, ast.Gt, ast.GtE, ast.Eq, ast.NotEq)
+_NO_SEM = tuple(getattr(ast, n) for n in
+                ['JoinedStr', 'FormattedValue', 'Await', 'Yield', 'YieldFrom', 'AsyncFunctionDef', 'AsyncFor', 'AsyncWith', 'ClassDef',
+                 'Import', 'ImportFrom', 'Match', 'TryStar', 'TypeAlias'] if hasattr(ast, n))
+
+
+def _outside_sem(fn):
+    """constructs Py.SemAnf does not give a meaning to (checked on the real code by execution only)"""
+    for n in ast.walk(fn):
+        if isinstance(n, _NO_SEM):
+            return True
+        if isinstance(n, (ast.BinOp, ast.AugAssign)) and not isinstance(n.op, _SEM_BINOPS):
+            return True
+        if isinstance(n, ast.Compare) and not all(isinstance(o, _SEM_CMPOPS) for o in n.ops):
+            return True
+        if isinstance(n, ast.Starred) and isinstance(n.ctx, ast.Store):
+            return True
+        if isinstance(n, ast.Call):     # calls of anything but the tracer functions of the prelude (closures, lambdas, modules)
+            f = n.func
+            while isinstance(f, ast.Attribute):
+                f = f.value
+            if isinstance(f, ast.Name) and f.id not in ('tr', 'mk', 'E', 'cm', 'O') and not f.id.startswith('tmp_'):
+                return True
+        if isinstance(n, ast.Constant) and not isinstance(n.value, (int, str, type(None))):
+            return True
+        if isinstance(n, (ast.FunctionDef, ast.Lambda)) and n is not fn and getattr(n, 'type_params', None):
+            return True
+    return False
+
+
+def ast_histogram(cases):
+    """node kinds of the generated corpus, and the kinds of Python's grammar that never occur in it"""
+    h = collections.Counter()
+    for c in cases:
+        try:
+            t = ast.parse(c['src'])
+        except SyntaxError:
+            continue
+        for n in ast.walk(t):
+            h[type(n).__name__] += 1
+    dep = {'Num', 'Str', 'Bytes', 'NameConstant', 'Ellipsis', 'Index', 'ExtSlice', 'Suite', 'Param', 'AugLoad', 'AugStore',
+           'Interactive', 'Expression', 'FunctionType'}
+    uni = {}
+    for base in (ast.expr, ast.stmt, ast.operator, ast.unaryop, ast.cmpop, ast.boolop, ast.expr_context,
+                 getattr(ast, 'pattern', None), getattr(ast, 'type_param', None)):
+        if base is None:
+            continue
+        for k in base.__subclasses__():
+            if k.__name__ not in dep:
+                uni[k.__name__] = base.__name__
+    for k in ('comprehension', 'ExceptHandler', 'arguments', 'arg', 'keyword', 'alias', 'withitem', 'match_case'):
+        uni[k] = 'other'
+    never = sorted(k for k in uni if h[k] == 0)
+    by_group = collections.defaultdict(dict)
+    for k, g in uni.items():
+        by_group[g][k] = h[k]
+    return {'node_counts': {g: dict(sorted(d.items(), key=lambda kv: -kv[1])) for g, d in by_group.items()},
+            'never_generated': never,
+            'never_generated_expression_kinds': [k for k in never if uni[k] in ('expr', 'operator', 'unaryop', 'cmpop', 'boolop')]}
 
 
 def args_sexp(a):
@@ -239,7 +317,7 @@ def direct(case):
         return d
     out = res[1]
     d['out'] = out
-    if not isinstance(out, ast.FunctionDef):
+    if not isinstance(out, (ast.FunctionDef, ast.AsyncFunctionDef)):
         d['problems'].append('transform did not return a FunctionDef')
         return d
     d['problems'] += ['selected position not named: ' + b for b in shape_problems(out, cfg)]
@@ -292,7 +370,14 @@ def check(run, only_cases=None):
     run.rule = ('random straight-line/if/for/with/try functions f(a, b) with tracer calls tr(k, ...) / O.m(...) / mk / cm / E '
                 'in operand positions (call args, keywords, *, **, attribute bases, subscripts, slices, binary/unary/compare '
                 'operands, tuple/list/set/dict displays, return/raise operands, store/augmented/delete targets), each under '
-                'the default configuration and under random edge-pattern configurations; a case = (program, configuration); '
+                'the default configuration and under random edge-pattern configurations; plus dedicated streams: lazy constructs '
+                '(trivial / non-trivial / nested calls under inner-position-only configurations), comprehensions, temporary-like '
+                'user names and two-pass pipelines, repeated reads around mutating calls, annotated locals, f-strings (1-3 fields, '
+                'conversions, nested format specs, fields formatting objects with observable formatting next to mutating fields, '
+                'in statements of every kind), and one program per remaining node kind of the grammar (all operators, identity / '
+                'membership tests, global / nonlocal, imports, classes, async def / for / with, await, yield / yield from, match, '
+                'except*, type aliases / type parameters); coverage.corpus_ast_node_kinds has the histogram of node kinds and the '
+                'kinds never generated; a case = (program, configuration); '
                 'distinct = distinct (source text, configuration); non-trivial = the transformer accepted it and introduced '
                 '>= 1 temporary, or rejected it')
     run.assumptions += [
@@ -301,6 +386,9 @@ def check(run, only_cases=None):
         'directive callables other than anf.REPLACE / anf.LEAVE are not modelled (configurations are lists of edge patterns)',
         'attribute / item loads and operators are pure in Py.SemAnf; the stream "mutable" (a box, a list and a global mutated by '
         'bump()) checks the REAL transformer beyond that assumption by execution only, on statements whose operands are flat',
+        'f-strings, generators, coroutines, classes, imports, match, calls of closures, starred targets and the operators other than '
+        '+ - * < <= > >= == != have no meaning in Py.SemAnf: such programs are compared original-vs-transformed by execution in CPython '
+        'only (coverage.semantics_runs counts them)',
         'C18_sem_partial is proved for the fragment stated in Props/C18.lean (fragFn); outside it preservation is tested, not proved; '
         'the distribution of the reasons that put accepted functions outside the fragment is in coverage.fragment_exclusion_*',
     ]
@@ -310,6 +398,7 @@ def check(run, only_cases=None):
         cases, feats = gen_cases(run)
         cases = load_corpus() + cases
         run.cov['generator_features'] = dict(feats)
+        run.cov['corpus_ast_node_kinds'] = ast_histogram(cases)
     else:
         cases = only_cases
     seen = set()
@@ -420,7 +509,9 @@ def check(run, only_cases=None):
             run.fail('transformed function behaves differently (result / ordered effect log / exception type)', rec, cls)
     run.cov['hazard_free_cases'] = hazfree
     if answers is not None:
-        infrag = [i for i in range(len(cases)) if answers[idx[i]['frag']] == 'True' and not _mutable(cases[i])]
+        # (the theorem is about programs the model transforms: `anf cfg fn = .ok out`)
+        infrag = [i for i in range(len(cases)) if answers[idx[i]['frag']] == 'True' and not _mutable(cases[i])
+                  and answers[idx[i]['anf']].startswith('(ok')]
         bad = [case_record(cases[i]) for i in infrag if hazards_of(i)]
         run.cov['cases_in_proved_fragment'] = len(infrag)
         run.cov['cases_in_proved_fragment_with_temporaries'] = len([i for i in infrag if results[i].get('ntemps', 0) > 0])
@@ -508,11 +599,15 @@ def check(run, only_cases=None):
 
         # ---------------- 3. the small semantics vs CPython ----------------
         sdis, sn, skipped = [], 0, 0
+        outside_sem = 0
         adis, an = [], 0
         mdis, mn = [], 0
         for i, (c, d) in enumerate(zip(cases, results)):
             if d['res'][0] == 'err' or any(isinstance(n, ast.While) for n in ast.walk(d['fn'])) or _mutable(c):
                 continue        # Py.SemAnf has no `while`, and no mutable objects (loads are pure there)
+            if _outside_sem(d['fn']):
+                outside_sem += 1
+                continue        # f-strings, generators, coroutines, classes, imports, the other operators: execution only
             hz = hazards_of(i) or []
             for j, a in enumerate(G.INPUTS):
                 py = json.loads(json.dumps(d['py_orig'][j]))
@@ -549,7 +644,8 @@ def check(run, only_cases=None):
         run.oblige('correspondence:Py.SemAnf-vs-CPython(original)', 'correspondence', not sdis, json.dumps(sdis[:2]) if sdis else '')
         run.oblige('correspondence:Py.SemAnf(model anf)-vs-CPython(real anf)', 'correspondence', not adis, json.dumps(adis[:2]) if adis else '')
         run.oblige('model:hazard-free-programs-preserved', 'correspondence', not mdis, json.dumps(mdis[:2]) if mdis else '')
-        run.cov['semantics_runs'] = {'original': sn, 'transformed': an, 'model_theorem_instances': mn, 'skipped_other_exception': skipped}
+        run.cov['semantics_runs'] = {'original': sn, 'transformed': an, 'model_theorem_instances': mn, 'skipped_other_exception': skipped,
+                                     'cases_outside_Py.SemAnf(execution oracle only)': outside_sem}
     else:
         run.oblige('correspondence:c18', 'correspondence', False, 'driver unavailable')
 
